@@ -272,15 +272,16 @@ func line(s *c01.Spec, kind string, c, ad, p0 []byte) string {
 
 func gen(r *hx.Rng, n int, tier string) []string {
 	var out []string
-	// the stdlib size limits that Tink does not check before calling Open (directed, cheap:
-	// the buffer is mapped lazily and the panic precedes any access)
+	// ciphertexts above the size limit of x/crypto's Open, which panics there: Decrypt must
+	// return an error (directed, cheap: the buffer is mapped lazily and the size check
+	// precedes any access).  The exact-boundary cases are in corpus/C02.txt.
 	for _, sc := range []string{"chacha", "xchacha"} {
 		for _, v := range []string{"R", "T"} {
 			s := &c01.Spec{Scheme: sc, Route: "H", Variant: v, ID: 0x01020304, Params: "-", Key: r.Bytes(32)}
 			if v == "R" {
 				s.Route = "S"
 			}
-			out = append(out, line(s, fmt.Sprintf("huge.%d", (1<<38)-48+s.IVLen()+len(s.Prefix())+1), nil, nil, nil))
+			out = append(out, line(s, fmt.Sprintf("huge.%d", (1<<38)-48+s.IVLen()+len(s.Prefix())+1+r.Intn(1<<20)), nil, nil, nil))
 		}
 	}
 	exhaustiveLeft := 3
